@@ -522,7 +522,12 @@ def gen_floor(rng, idx, big=False, groups=True, congested=False, serial=False):
     for k, (t, op) in enumerate(sched):
         L.append(['ext', 'sched', str(t), '-2', str(k), str(pick_prio(rng))])
     horizon = rng.choice([48, 64, 96, 128]) if not big else rng.choice([128, 200])
-    if rng.random() < 0.3:
+    if serial and rng.random() < 0.4:
+        # "every horizon": a horizon of exactly 0 (everything with entry time 0 must have happened when the call
+        # returns), and horizons split over several calls some of which have length 0 (before the first event, at
+        # an arbitrary instant, twice in a row, at the very end)
+        L += _serial_runs(rng, horizon)
+    elif rng.random() < 0.3:
         a = rng.choice([8, 16, 20, 33])
         L.append(['run', str(a)])
         L.append(['run', str(horizon - a if horizon > a else 8)])
@@ -530,6 +535,31 @@ def gen_floor(rng, idx, big=False, groups=True, congested=False, serial=False):
         L.append(['run', str(horizon)])
     L.append(['end'])
     return L
+
+
+def _serial_runs(rng, horizon):
+    """run lines of a serial scenario whose horizon is 0 or is split into pieces, some of length 0"""
+    c = rng.random()
+    if c < 0.2:
+        return [['run', '0'] for _ in range(rng.choice([1, 1, 2]))]
+    pieces = []
+    left = horizon
+    for _ in range(rng.choice([1, 2, 2, 3])):
+        a = rng.choice([1, 4, 8, 16, 20, 33])
+        if a < left:
+            pieces.append(a)
+            left -= a
+    pieces.append(left)
+    out = []
+    if rng.random() < 0.7:
+        out += [['run', '0'] for _ in range(rng.choice([1, 1, 2]))]
+    for i, a in enumerate(pieces):
+        out.append(['run', str(a)])
+        if rng.random() < 0.35:
+            out.append(['run', '0'])
+    if not any(r == ['run', '0'] for r in out):
+        out.insert(0, ['run', '0'])
+    return out
 
 
 def gen_floor_congested(rng, idx, big=False):
@@ -540,7 +570,56 @@ def gen_serial(rng, idx, big=False):
     return gen_floor(rng, idx, big, groups=False, serial=True)
 
 
-FAMILIES.update({'floor': gen_floor, 'floorc': gen_floor_congested, 'serial': gen_serial})
+def gen_serial_topup(rng, idx, big=False):
+    """Serial line whose source has a small finite budget that is topped up (existing op `adjust`, positive amounts
+    only): from a scheduled event shortly after the last supply / inside the source's tail cycle / exactly at its
+    end / long after the whole line has run dry, and from outside between two run calls.  A part that becomes
+    permitted at tau leaves the source at max(previous departure + c_0, tau, space downstream)."""
+    L = gen_floor(rng, idx, big, groups=False, serial=True)
+    L = [l for l in L if l[0] not in ('run', 'end')]
+    si = next(i for i, l in enumerate(L) if l[:3] == ['asset', 'dev', 'source'])
+    cyc = rng.choice([0, 2, 3, 4, 4, 8])
+    bud = rng.choice([0, 1, 1, 2, 3])
+    L[si] = [t for t in L[si] if not t.startswith(('cyc=', 'budget='))] + [f'cyc={cyc}', f'budget={bud}']
+    delays = []
+    for l in L:
+        if l[:2] == ['asset', 'dev']:
+            delays += [int(t.split('=')[1]) for t in l[3:] if t.startswith(('cyc=', 'delay='))]
+    dry = bud * max(delays + [1]) + sum(delays)        # by then every part of the first budget has left the source
+    sched = []
+    t = bud * cyc
+    for _ in range(rng.randint(1, 3)):
+        if rng.random() < 0.5:
+            t += rng.choice([0, 1, 2, max(cyc - 1, 0), cyc, cyc + 1, 2 * cyc + 1, 17])
+        else:
+            t = max(t, dry) + rng.choice([0, 1, 5, 16])
+        sched.append((t, ['adjust', '0', str(rng.choice([1, 1, 2, 3]))]))
+        t += rng.choice([0, 1, cyc])
+    between = None
+    if rng.random() < 0.4:
+        # the last top-up comes from outside, between two run calls
+        between = sched.pop()
+    _sched_ops(L, rng, sched)
+    end = max([x[0] for x in sched] + [between[0] if between else 0]) + rng.choice([16, 48, 64])
+    if between is not None:
+        if rng.random() < 0.3:
+            L.append(['run', '0'])
+        L.append(['run', str(between[0])])
+        L.append(['ext'] + between[1])
+        if rng.random() < 0.3:
+            L.append(['run', '0'])
+        L.append(['run', str(end - between[0])])
+    elif rng.random() < 0.3:
+        a = rng.choice([8, 16, 20, 33])
+        L.append(['run', str(a)])
+        L.append(['run', str(max(end - a, 8))])
+    else:
+        L.append(['run', str(end)])
+    L.append(['end'])
+    return L
+
+
+FAMILIES.update({'floor': gen_floor, 'floorc': gen_floor_congested, 'serial': gen_serial, 'serialq': gen_serial_topup})
 
 
 # ----------------------------------------------------------------------------------------- sys
